@@ -514,8 +514,9 @@ def sched_other(kind, j):
     raise ValueError(kind)
 
 
-def sched_ops(plan):
-    """plan: list of (hold index, [other kinds]) for ONE held APPEND to INBOX."""
+def sched_ops(plan, off=0):
+    """plan: list of (hold index, [other kinds]) for ONE held APPEND to INBOX; [off]: gate
+    arrivals of the command before its first statement U."""
     ops = [{"op": "open", "conn": "c1"},
            {"op": "send", "conn": "c1", "data": "i1 LOGIN %s pw\r\n" % USER, "until": "tag:i1"},
            {"op": "open", "conn": "c2"},
@@ -540,7 +541,7 @@ def sched_ops(plan):
             envs[k].append(mop)
             run.append(j)
             j += 1
-        holds.append({"at": k, "run": run})
+        holds.append({"at": k + off, "run": run})
     ops.append({"op": "c03_hold", "holder": {"conn": "c1", "steps": sched_append_steps("h1", "INBOX", 1)},
                 "others": others, "holds": holds, "timeout_ms": 10000})
     ops += [{"op": "send", "conn": "c1", "data": "f1 SELECT INBOX\r\n", "until": "tag:f1"},
@@ -552,7 +553,15 @@ def sched_ops(plan):
 def run_sched(chk, plans, stats):
     """Run the plans, check APPENDUID against UID FETCH and the store, and tie
     the statement-level model (Model/AppendSched.v) to the outcome."""
-    built = [sched_ops(p) for p in plans]
+    # where do the four statements start among the gate points of an APPEND on this tree?
+    dry = C.run_ops(sched_ops([])[0], timeout=120)
+    try:
+        dpts = dry["obs"][-4]["points"]
+        off = dpts.index("U")
+    except Exception:
+        chk.broken_obligation("sched: could not determine the statements of APPEND on this tree: %s" % str(dry)[-300:], {"suite": "sched"})
+        return
+    built = [sched_ops(p, off) for p in plans]
     res = C.run_many([b[0] for b in built], workers=12, timeout=300)
     terms = []
     ok_idx = []
@@ -574,10 +583,10 @@ def run_sched(chk, plans, stats):
             chk.broken_obligation("sched scenario did not complete: %s" % hold.get("error"), payload)
             continue
         stats["sched"] = stats.get("sched", 0) + 1
-        pts = hold.get("points") or []
+        pts = (hold.get("points") or [])[off:]
         if pts != SCHED_POINTS:
             stats.setdefault("sched_points", set()).add(" ".join(pts))
-        reached = set(hold.get("reached") or [])
+        reached = set(x - off for x in (hold.get("reached") or []))
         rest = tagged(hold["holder"][-1]["recv"], "h1")
         m = re.search(r"\[APPENDUID (\d+) (\d+)\]", rest)
         dump0, dump = user_store(obs[-6]), user_store(obs[-1])
@@ -647,7 +656,14 @@ SPAM_SEQS = {
     "append,uidcopy,expunge4": [("append_spam",), ("uidcopy_spam", 1), ("expunge", 4)],
     "junkmove,deliver": [("junk_move", 2), ("deliver_spam",)],
 }
-HOLDERS2 = {"move": "UID STORE 1 +FLAGS (Junk)", "uidcopy": "UID COPY 1:2 Spam"}
+INBOX_SEQS = {
+    # the seeded C08-5 window: a writer adds to INBOX between RENAME INBOX's reads and its transaction
+    "deliver": [("deliver_inbox",)],
+    "deliver,deliver,expunge3": [("deliver_inbox",), ("deliver_inbox",), ("expunge_inbox", 3)],
+    "append,uidcopy": [("append_inbox",), ("uidcopy_inbox", 2)],
+}
+HOLDERS2 = {"move": "UID STORE 1 +FLAGS (Junk)", "uidcopy": "UID COPY 1:2 Spam", "rename_inbox": "RENAME INBOX R1"}
+SEQS_OF = {"move": "SPAM", "uidcopy": "SPAM", "rename_inbox": "INBOX"}
 SLOTS2 = ["before_lookup", "before_begin", "first_tx_statement"]     # positions iB-1, iB, iB+1 around BEGIN
 
 
@@ -667,6 +683,21 @@ def other2(spec, j):
     if kind == "junk_move":
         return ([{"conn": "c2", "steps": [{"data": "o%d UID STORE %d +FLAGS (Junk)\r\n" % (j, spec[1]), "until": "tag:o%d" % j}]}],
                 ["(OUidStore 4 [(UOne %d)] SAdd [JUNK])" % spec[1]])
+    if kind == "deliver_inbox":
+        return ([{"conn": "l0", "steps": [{"data": "MAIL FROM:<a@example.com>\r\n", "until": "lmtp:1"},
+                                          {"data": "RCPT TO:<%s>\r\n" % USER, "until": "lmtp:1"},
+                                          {"data": "DATA\r\n", "until": "lmtp:1"},
+                                          {"data": sched_msg(500 + j) + ".\r\n", "until": "lmtp:1"}]}],
+                ["(ODeliver INBOX 0)"])
+    if kind == "append_inbox":
+        return ([{"conn": "c2", "steps": sched_append_steps("o%d" % j, "INBOX", 600 + j)}], ["(OAppend INBOX [])"])
+    if kind == "uidcopy_inbox":
+        return ([{"conn": "c2", "steps": [{"data": "o%d UID COPY %d INBOX\r\n" % (j, spec[1]), "until": "tag:o%d" % j}]}],
+                ["(OUidCopy 4 [(UOne %d)] INBOX)" % spec[1]])
+    if kind == "expunge_inbox":      # c3 has INBOX selected in the RENAME INBOX scenarios
+        return ([{"conn": "c3", "steps": [{"data": "o%d UID STORE %d +FLAGS (\\Deleted)\r\n" % (j, spec[1]), "until": "tag:o%d" % j},
+                                          {"data": "x%d EXPUNGE\r\n" % j, "until": "tag:x%d" % j}]}],
+                ["(OUidStore 1 [(UOne %d)] SAdd [(S_ \"\\Deleted\")])" % spec[1], "(OExpunge 1)"])
     if kind == "expunge":
         return ([{"conn": "c3", "steps": [{"data": "o%d UID STORE %d +FLAGS (\\Deleted)\r\n" % (j, spec[1]), "until": "tag:o%d" % j},
                                           {"data": "x%d EXPUNGE\r\n" % j, "until": "tag:x%d" % j}]}],
@@ -674,7 +705,7 @@ def other2(spec, j):
     raise ValueError(kind)
 
 
-def sched2_prefix():
+def sched2_prefix(c3_folder="Spam"):
     ops = []
     for c in ("c1", "c2", "c3"):
         ops += [{"op": "open", "conn": c}, {"op": "send", "conn": c, "data": "i%s LOGIN %s pw\r\n" % (c, USER), "until": "tag:i" + c}]
@@ -687,14 +718,14 @@ def sched2_prefix():
             n += 1
     ops += [{"op": "send", "conn": "c1", "data": "s1 SELECT INBOX\r\n", "until": "tag:s1"},
             {"op": "send", "conn": "c2", "data": "s2 SELECT Trash\r\n", "until": "tag:s2"},
-            {"op": "send", "conn": "c3", "data": "s3 SELECT Spam\r\n", "until": "tag:s3"},
+            {"op": "send", "conn": "c3", "data": "s3 SELECT %s\r\n" % c3_folder, "until": "tag:s3"},
             {"op": "dump"},
             {"op": "c03_gate_install", "user": USER}]
     return ops
 
 
 def sched2_ops(holder, at, seq):
-    ops = sched2_prefix()
+    ops = sched2_prefix("INBOX" if holder == "rename_inbox" else "Spam")
     others, mops = [], []
     for j, spec in enumerate(seq):
         ths, mo = other2(spec, j)
@@ -758,6 +789,41 @@ class GhostLog:
         return out
 
 
+def probe_rename_window(chk):
+    """Known finding rename_inbox_target_written_in_window: RENAME INBOX R1 (INBOX empty) held
+    at its BEGIN while another session APPENDs to the just created R1."""
+    ops = []
+    for c in ("c1", "c2"):
+        ops += [{"op": "open", "conn": c}, {"op": "send", "conn": c, "data": "i%s LOGIN %s pw\r\n" % (c, USER), "until": "tag:i" + c}]
+    ops += [{"op": "dump"}, {"op": "c03_gate_install", "user": USER}]
+    dry = C.run_ops(ops + [{"op": "c03_hold", "holder": {"conn": "c1", "steps": [{"data": "h1 RENAME INBOX R1\r\n", "until": "tag:h1"}]}, "others": [], "holds": []}], timeout=120)
+    try:
+        at = dry["obs"][-1]["points"].index("B")
+    except Exception:
+        return
+    ops.append({"op": "c03_hold", "dumps": True,
+                "holder": {"conn": "c1", "steps": [{"data": "h1 RENAME INBOX R1\r\n", "until": "tag:h1"}]},
+                "others": [{"conn": "c2", "steps": sched_append_steps("o1", "R1", 700)}], "holds": [{"at": at, "run": [0]}]})
+    ops.append({"op": "dump"})
+    r = C.run_ops(ops, timeout=120)
+    if r.get("crashed") or len(r.get("obs", [])) != len(ops):
+        return
+    ghost = GhostLog()
+    viols = ghost.step(user_store(r["obs"][-4]))
+    for st in (r["obs"][-2].get("dumps") or []):
+        viols += ghost.step(user_store({"stores": st}))
+    viols += ghost.step(user_store(r["obs"][-1]))
+    if viols:
+        chk.violation("RENAME INBOX R1 (INBOX empty) held at BEGIN while another session runs APPEND R1: %s" % viols[0],
+                      {"suite": "rename_window"}, cls="rename_inbox_target_written_in_window")
+
+
+def seq_specs(h, seq):
+    if not isinstance(seq, str):
+        return seq
+    return (INBOX_SEQS if SEQS_OF[h] == "INBOX" else SPAM_SEQS)[seq]
+
+
 def run_sched2(chk, cases, stats):
     """cases: list of (holder, slot name, sequence name or list of specs)."""
     # where is BEGIN among the gate points of each held command on THIS tree?
@@ -772,13 +838,13 @@ def run_sched2(chk, cases, stats):
             return
     built = []
     for (h, slot, seq) in cases:
-        specs = SPAM_SEQS[seq] if isinstance(seq, str) else seq
+        specs = seq_specs(h, seq)
         at = ib[h][0] - 1 + SLOTS2.index(slot)
         built.append(sched2_ops(h, at, specs))
     res = C.run_many([b[0] for b in built], workers=12, timeout=300)
     terms, ok_idx = [], []
     for n, ((h, slot, seq), (ops, mops), r) in enumerate(zip(cases, built, res)):
-        specs = SPAM_SEQS[seq] if isinstance(seq, str) else seq
+        specs = seq_specs(h, seq)
         payload = {"suite": "sched2", "holder": h, "slot": slot, "sequence": [list(x) for x in specs], "gate_points": ib[h][1]}
         if r.get("crashed") or len(r.get("obs", [])) != len(ops) or r["obs"][-2].get("error"):
             r = C.run_ops(ops, timeout=300)
@@ -805,7 +871,9 @@ def run_sched2(chk, cases, stats):
         late = "[]" if reached else C.coq_list(mops)
         mv = C.coq_list(["(%d, %s, %s, %d)" % (x[0], C.coq_str(x[2]), C.coq_z(x[3]), x[4]) for x in (final.get("mailboxes") or [])])
         lv = C.coq_list(["(%d, %d, %d, %d, %s)" % (l[0], l[1], l[2], l[3], coq_flags(C.unlatin(l[4]).split())) for l in (final.get("links") or [])])
-        terms.append("((init5 %s), %s, %d, %s, %s, %s, %s)" % (" ".join(C.coq_z(x[3]) for x in mbs[:5]), {"move": "HMove", "uidcopy": "HUidCopy"}[h],
+        newrow = [x for x in (final.get("mailboxes") or []) if x[2] == "R1"]
+        hterm = {"move": "HMove", "uidcopy": "HUidCopy", "rename_inbox": "(HRenameInbox %s)" % C.coq_z(newrow[0][3] if newrow else 0)}[h]
+        terms.append("((init5 %s), %s, %d, %s, %s, %s, %s)" % (" ".join(C.coq_z(x[3]) for x in mbs[:5]), hterm,
                                                                0 if slot == "before_lookup" else 1, env, late, mv, lv))
         ok_idx.append(n)
     if not terms:
@@ -824,7 +892,7 @@ def run_sched2(chk, cases, stats):
             if not stats.get("real"):
                 h, slot, seq = cases[n]
                 chk.broken_obligation("correspondence sched2 no longer checks: the statement-level model (Model/MoveSched.v) and the implementation differ for %s held at %s with other writers %r" % (HOLDERS2[h], slot, seq),
-                                      {"suite": "sched2", "holder": h, "slot": slot, "sequence": [list(x) for x in (SPAM_SEQS[seq] if isinstance(seq, str) else seq)]})
+                                      {"suite": "sched2", "holder": h, "slot": slot, "sequence": [list(x) for x in seq_specs(h, seq)]})
 
 
 def rename_inbox_family():
@@ -1054,13 +1122,17 @@ def run(chk):
             plans.append([(k, [chk.rng.choice(OTHER_KINDS) for _ in range(chk.rng.randint(1, 2))]) for k in ks])
     plans = [[(k, list(kinds)) for k, kinds in p] for p in plans]
     run_sched(chk, plans, stats)
-    cases2 = [(h, slot, seq) for h in HOLDERS2 for slot in SLOTS2 for seq in SPAM_SEQS]
+    cases2 = [(h, slot, seq) for h in HOLDERS2 for slot in SLOTS2 for seq in (INBOX_SEQS if SEQS_OF[h] == "INBOX" else SPAM_SEQS)]
     if not quick:
         kinds2 = [("deliver_spam",), ("append_spam",), ("uidcopy_spam", 1), ("uidcopy_spam", 2), ("junk_move", 3), ("junk_move", 4),
                   ("expunge", 1), ("expunge", 3), ("expunge", 4), ("expunge", 5)]
         for _ in range(60):
-            cases2.append((chk.rng.choice(list(HOLDERS2)), chk.rng.choice(SLOTS2), [chk.rng.choice(kinds2) for _ in range(chk.rng.randint(2, 5))]))
+            cases2.append((chk.rng.choice(["move", "uidcopy"]), chk.rng.choice(SLOTS2), [chk.rng.choice(kinds2) for _ in range(chk.rng.randint(2, 5))]))
+        kinds3 = [("deliver_inbox",), ("append_inbox",), ("uidcopy_inbox", 1), ("uidcopy_inbox", 3), ("expunge_inbox", 1), ("expunge_inbox", 3), ("expunge_inbox", 4)]
+        for _ in range(30):
+            cases2.append(("rename_inbox", chk.rng.choice(SLOTS2), [chk.rng.choice(kinds3) for _ in range(chk.rng.randint(1, 4))]))
     run_sched2(chk, cases2, stats)
+    probe_rename_window(chk)
     # ---- 2. random histories
     n_rand, n_clean, length = (40, 24, 22) if quick else (700, 300, 40)
     fam = rename_inbox_family()
